@@ -140,6 +140,20 @@ func checkCmd(args []string) int {
 			entries = vc.FixtureCorpus(*repo)
 			entries = append(entries, vc.JSONCorpus(*verif)...)
 		}
+		if *prop != "C07" {
+			// components that are references to other components and date / date-time
+			// components (corpus/json/j05): the encoding side is under contract (C07);
+			// the decoding of such members is not (DESIGN 0.7, limits)
+			var keep []vc.CorpusEntry
+			for _, ce := range entries {
+				if strings.Contains(ce.Name, "-aliases") {
+					cr.Note("%s: checked for C07 only (decoding of alias / date-time component members is not under contract)", ce.Name)
+					continue
+				}
+				keep = append(keep, ce)
+			}
+			entries = keep
+		}
 		cr.CheckJSON(entries)
 		return cr.Finish("proof", checkerCmd, commonTrusted, "one obligation per (codec function, return site, clause) and per call-site precondition of the emitted MarshalJSON / marshalJSONInnerBody / UnmarshalJSON / unmarshalJSONInnerBody of every schema-derived type of every corpus package; all values / all documents")
 	case "C14":
